@@ -10,6 +10,15 @@
 (*   badProg   the -f file does not exist                                    *)
 (*   badAt     0, or the number of the input file that cannot be used        *)
 (*   badKind   "none" | "missing" | "unreadable"                             *)
+(*   stop      (optional) where the program ends the run with `exit`:        *)
+(*             "never" | "begin" (in a BEGIN rule: no input is taken up) |   *)
+(*             "in1" | "in2" (while the first / second input is processed);  *)
+(*             "pool" / absent: whatever the program at hand does            *)
+(*   alias     (optional) what the -o path is: "none" / absent: a path of    *)
+(*             its own; "input" | "spelled" | "symlink" | "hardlink": the    *)
+(*             input file itself (the same string, another spelling of the   *)
+(*             path, a symbolic / hard link to it): rewriting a document in  *)
+(*             place                                                         *)
 (* lib : the result of the library interpreter on (program, selectors in     *)
 (*   order, inputs in order).  It is an INPUT of this module (uninterpreted):*)
 (*   outcome "ok" | "err", json "ok" | "err" | "na" (GetRootJson).           *)
@@ -30,6 +39,8 @@ VARIABLES cfg, pc, opened, lib, calls, stdout, stderr, outfile, status
 cvars == <<cfg, pc, opened, lib, calls, stdout, stderr, outfile, status>>
 
 NoLib == [outcome |-> "na", json |-> "na"]
+StopOf(c) == IF "stop" \in DOMAIN c THEN c.stop ELSE "pool"
+AliasOf(c) == IF "alias" \in DOMAIN c THEN c.alias ELSE "none"
 NoText == [chan |-> "none", bytes |-> <<>>]
 TextOf(c) == IF "text" \in DOMAIN c THEN c.text ELSE NoText
 \* texts that travel from the command line to the library / from the library to stdout and the -o file
@@ -46,10 +57,14 @@ LibResults == {[outcome |-> "ok", json |-> "ok"], [outcome |-> "ok", json |-> "e
 \* an input is identified by the path it names: a path given twice is two inputs, each opened and read on its own
 Inputs(c) == IF c.nfiles = 0 THEN <<"stdin">> ELSE [i \in 1..c.nfiles |-> IF c.same THEN 1 ELSE i]
 Selectors(c) == [i \in 1..c.nsel |-> i]
+\* how many of the inputs the evaluator gets to read: a program that exits earlier never reads the rest
+NReads(c) == CASE StopOf(c) = "begin" -> 0 [] StopOf(c) = "in1" -> 1 [] StopOf(c) = "in2" -> 2 [] OTHER -> Len(Inputs(c))
+\* what the -o path holds when the command is given: nothing, or (in place) the input document
+OutBefore(c) == IF AliasOf(c) = "none" THEN "absent" ELSE "doc"
 
 Start(c) ==
   /\ cfg = c /\ pc = "parse" /\ opened = <<>> /\ lib = NoLib /\ calls = <<>>
-  /\ stdout = <<>> /\ stderr = <<>> /\ outfile = "absent" /\ status = -1
+  /\ stdout = <<>> /\ stderr = <<>> /\ outfile = OutBefore(c) /\ status = -1
 
 Fail(msg) == stderr' = Append(stderr, msg) /\ status' = 1 /\ pc' = "exit"
 
@@ -65,7 +80,8 @@ LoadProgram ==
        THEN Fail("program file") /\ UNCHANGED <<cfg, opened, lib, calls, stdout, outfile>>
        ELSE pc' = "open" /\ UNCHANGED <<cfg, opened, lib, calls, stdout, stderr, outfile, status>>
 
-\* os.Open of each named file, in order; the first failure ends the run
+\* os.Open of each named file, in order; the first failure ends the run.  Every input is opened before the program
+\* runs, whether or not the program will get as far as reading it (StopOf)
 OpenInput ==
   /\ pc = "open" /\ Len(opened) < Len(Inputs(cfg))
   /\ LET i == Len(opened) + 1 IN
@@ -79,7 +95,9 @@ Evaluate(r) ==
   /\ pc = "open" /\ Len(opened) = Len(Inputs(cfg))
   /\ r \in LibResults
   /\ lib' = r
-  /\ calls' = Append(calls, [inputs |-> opened, sels |-> Selectors(cfg), text |-> TextOf(cfg)])
+  \* the evaluator reads its inputs during the call: an input that is also the -o path holds what that path holds NOW
+  /\ calls' = Append(calls, [inputs |-> opened, sels |-> Selectors(cfg), text |-> TextOf(cfg),
+                             read |-> [i \in 1..NReads(cfg) |-> IF AliasOf(cfg) = "none" THEN "doc" ELSE outfile]])
   /\ stdout' = Append(stdout, "lib")
   /\ IF r.outcome = "err"
        THEN Fail("evaluation") /\ UNCHANGED <<cfg, opened, outfile>>
@@ -125,8 +143,9 @@ Result(c, r) ==
   IN [status0 |-> ok,
       diag |-> ~ok,
       stdout |-> (IF ev THEN <<"lib">> ELSE <<>>) \o (IF ok /\ c.out = "dash" THEN <<"json">> ELSE <<>>),
-      outfile |-> IF ok /\ c.out = "path" THEN "json" ELSE "absent",
-      calls |-> IF ev THEN <<[inputs |-> Inputs(c), sels |-> Selectors(c), text |-> TextOf(c)]>> ELSE <<>>]
+      outfile |-> IF ok /\ c.out = "path" THEN "json" ELSE OutBefore(c),
+      calls |-> IF ev THEN <<[inputs |-> Inputs(c), sels |-> Selectors(c), text |-> TextOf(c),
+                              read |-> [i \in 1..NReads(c) |-> "doc"]]>> ELSE <<>>]
 
 Observed ==
   [status0 |-> status = 0, diag |-> stderr # <<>>, stdout |-> stdout, outfile |-> outfile, calls |-> calls]
@@ -143,7 +162,7 @@ IsPrefix(a, b) == Len(a) <= Len(b) /\ SubSeq(b, 1, Len(a)) = a
 CliTypeOK ==
   /\ pc \in {"parse", "load", "open", "json", "exit"}
   /\ status \in {-1, 0, 1} /\ (status = -1 <=> pc # "exit")
-  /\ outfile \in {"absent", "json"}
+  /\ outfile \in {"absent", "doc", "json"}
   /\ Len(calls) <= 1
 
 \* status = 0 iff the library succeeded and the JSON step (if any) did
@@ -166,6 +185,14 @@ ByteOrder ==
 \* the library is called at most once, after every input was opened, with inputs and selectors in command-line order
 CallOrder ==
   \A k \in 1..Len(calls) : calls[k].inputs = Inputs(cfg) /\ calls[k].sels = Selectors(cfg) /\ opened = Inputs(cfg)
+\* a run that succeeds has opened every input, also those the program never got to read (it exited before): an
+\* input that cannot be used is never forgiven
+OpensAll == (pc \in {"json", "exit"} /\ status # 1) => opened = Inputs(cfg)
+\* the evaluator reads every input as it was when the command was given: the -o path is written when the
+\* evaluation is over, and only then (rewriting the input in place works)
+ReadsOriginal ==
+  /\ \A k \in 1..Len(calls) : \A i \in DOMAIN calls[k].read : calls[k].read[i] = "doc"
+  /\ outfile # OutBefore(cfg) => (pc = "exit" /\ status = 0 /\ Len(calls) = 1)
 \* the library sees the texts of the command line byte for byte, however the program was given
 Transparent == \A k \in 1..Len(calls) : calls[k].text = TextOf(cfg)
 \* inputs are opened in order, none after a failure
@@ -201,7 +228,7 @@ LawOutPath(C) ==
     /\ d.status0 = p.status0
     /\ p.stdout = n.stdout
     /\ (p.outfile = "json") <=> (d.stdout = n.stdout \o <<"json">>)
-    /\ (p.outfile = "absent") <=> (d.stdout = n.stdout)
+    /\ (p.outfile = OutBefore(c)) <=> (d.stdout = n.stdout)
 \* the same on the byte stream: -o - prints every byte of the run without -o, then the document, then nothing
 LawOutBytes(C) ==
   \A c \in C : \A r \in LibResults :
@@ -209,6 +236,25 @@ LawOutBytes(C) ==
         n == Result([c EXCEPT !.out = "none"], r) IN
     /\ StreamOf(c, p.stdout) = StreamOf(c, n.stdout)
     /\ StreamOf(c, d.stdout) = StreamOf(c, n.stdout) \o (IF p.outfile = "json" THEN <<"<json>">> ELSE <<>>)
+\* what the wrapper decides does not depend on where the program stops: an unusable input or -o with several
+\* inputs is refused also when the program exits before it would have read that input
+StopsAll == {"never", "begin", "in1", "in2"}
+LawStop(C) ==
+  \A c \in C : \A r \in LibResults : \A s \in StopsAll :
+    ("stop" \in DOMAIN c /\ c.stop # "pool") =>
+      LET a == Result(c, r) b == Result([c EXCEPT !.stop = s], r) IN
+      /\ a.status0 = b.status0 /\ a.diag = b.diag /\ a.stdout = b.stdout /\ a.outfile = b.outfile
+      /\ Len(a.calls) = Len(b.calls)
+      /\ (InputFault(c) \/ (JsonWanted(c) /\ c.nfiles > 1)) => (~b.status0 /\ b.diag)
+\* -o FILE where FILE is the input: the run is that of a FILE of its own (the evaluator read the document), and
+\* FILE holds the JSON afterwards; after a failure it still holds the document
+LawInPlace(C) ==
+  \A c \in C : \A r \in LibResults :
+    AliasOf(c) # "none" =>
+      LET a == Result(c, r) b == Result([c EXCEPT !.alias = "none"], r) IN
+      /\ a.status0 = b.status0 /\ a.diag = b.diag /\ a.stdout = b.stdout /\ a.calls = b.calls
+      /\ (a.outfile = "json") <=> (b.outfile = "json")
+      /\ a.outfile \in {"json", "doc"} /\ (a.outfile = "doc" <=> ~a.status0)
 \* every error, an unusable file, and -o with several inputs: non-zero and a diagnostic
 LawErrors(C) ==
   \A c \in C : \A r \in LibResults :
